@@ -164,6 +164,44 @@ impl Host {
 			.downcast_ref::<jrsonnet_stdlib::ContextInitializer>()
 			.expect("stdlib initializer")
 	}
+	/// Evaluate without manifesting; the caller may keep the (lazy) value alive.
+	pub fn eval(&self, prog: &Prog, limit: Option<usize>) -> JrResult<jrsonnet_evaluator::Val> {
+		self.prepare(prog);
+		let _guard = limit.map(limit_stack_depth);
+		let _entered = self.state.enter();
+		let val = self.state.evaluate_snippet("<prog>", prog.code.as_str())?;
+		let mut tla: FxHashMap<IStr, TlaArg> = FxHashMap::default();
+		for (k, v) in &prog.tla {
+			tla.insert(
+				k.as_str().into(),
+				match v {
+					Arg::Str(v) => TlaArg::String(v.as_str().into()),
+					Arg::Code(c) => TlaArg::InlineCode(c.clone()),
+				},
+			);
+		}
+		apply_tla(&tla, val)
+	}
+	fn prepare(&self, prog: &Prog) {
+		self.traces.borrow_mut().clear();
+		let mut f = self.files.borrow_mut();
+		for (k, v) in &prog.libs {
+			f.entry(k.clone()).or_insert_with(|| v.clone());
+		}
+		drop(f);
+		let ctx = self.std_ctx();
+		let mut s = ctx.settings_mut();
+		s.ext_vars.clear();
+		for (k, v) in &prog.ext {
+			s.ext_vars.insert(
+				k.as_str().into(),
+				match v {
+					Arg::Str(v) => TlaArg::String(v.as_str().into()),
+					Arg::Code(c) => TlaArg::InlineCode(c.clone()),
+				},
+			);
+		}
+	}
 	/// Evaluate like the CLI does: evaluate snippet, apply TLAs, manifest with the CLI JSON format.
 	pub fn run(&self, prog: &Prog, limit: Option<usize>) -> Observed {
 		self.traces.borrow_mut().clear();
